@@ -123,8 +123,10 @@ class ScriptedEnv(ParallelEnv):
         if not f:
             return
         if f[0] == "raise":
-            big = len(f) > 2 and f[2] == "big"         # an exception whose report is larger than a pipe buffer (300 kB message)
-            raise EXC[f[1]](f"injected fault in env {self.idx} at command {self.ncmd}" + ("; " + "x" * 300000 if big else ""))
+            # an exception whose report is larger than a pipe buffer ("big": 300 kB message) or takes the worker's queue feeder
+            # thread a noticeable time to deliver ("huge": 30 MB)
+            pad = {"big": 300000, "huge": 30000000}.get(f[2] if len(f) > 2 else "", 0)
+            raise EXC[f[1]](f"injected fault in env {self.idx} at command {self.ncmd}" + ("; " + "x" * pad if pad else ""))
         if f[0] == "sleep":
             time.sleep(float(f[1]))
         if f[0] == "kill":
